@@ -42,36 +42,99 @@ Proof.
 Qed.
 
 (* ---------- the convention of the outermost call ---------- *)
-(* the classes that can supply defaults below a function call: the image of the re-labelling *)
-Definition img (rho : cls -> cls) (c : cls) : bool := existsb (fun c0 => cls_eqb (rho c0) c) all_cls.
-Lemma cls_eqb_eq a b : cls_eqb a b = true <-> a = b.
-Proof. destruct a, b; cbn; split; intros H; try discriminate; reflexivity. Qed.
-Lemma img_ok rho c0 : img rho (rho c0) = true.
-Proof.
-  unfold img. apply existsb_exists. exists c0. split; [destruct c0; cbn; tauto|]. apply cls_eqb_eq. reflexivity.
-Qed.
-Lemma img_inv rho c : img rho c = true -> exists c0, rho c0 = c.
-Proof. unfold img. intros H. apply existsb_exists in H. destruct H as [c0 [_ H]]. exists c0. apply cls_eqb_eq. exact H. Qed.
-
-Definition conv_x (rho : cls -> cls) (x : query) : conv := conv_of (kc (top_k rho x)) (img rho).
-Definition conv_kw (rho : cls -> cls) (kw : kwargs) (x : query) : conv := conv_of (kc (kw_ctx rho kw x)) (img rho).
+Definition conv_x (rho : cls -> cls) (x : query) : conv := conv_of (top_k rho x).
+Definition conv_kw (rho : cls -> cls) (kw : kwargs) (x : query) : conv := conv_of (kw_ctx rho kw x).
 Definition conv_cls (c : cls) : conv :=
-  {| v_q := cls_q c; v_sq := cls_sq c; v_aq := cls_aq c; v_as := cls_askw c; v_adm := fun _ => true |}.
+  {| v_q := cls_q c; v_sq := cls_sq c; v_aq := cls_aq c; v_as := cls_askw c; v_qa := qalias_quote c; v_abs := false |}.
+
+(* str(query) of ANY statement kind starts from the outer class's constants *)
+Lemma conv_x_cls rho x : conv_x rho x = conv_cls (top_cls_r rho x).
+Proof. reflexivity. Qed.
 
 Lemma top_ok rho x : ctx_ok (conv_x rho x) (top_origin x) (kc (top_k rho x)).
-Proof. destruct x; repeat split. Qed.
+Proof. repeat split. Qed.
+Lemma top_kok rho x : k_ok (conv_x rho x) (top_origin x) (top_k rho x).
+Proof. split; [reflexivity|discriminate]. Qed.
 Lemma kw_ok rho kw x : ctx_ok (conv_kw rho kw x) (kw_origin kw) (kc (kw_ctx rho kw x)).
 Proof. unfold conv_kw, kw_ctx, kw_origin. destruct (kw_rest kw) as [[[s a] k]|]; repeat split. Qed.
+Lemma kw_kok rho kw x : k_ok (conv_kw rho kw x) (kw_origin kw) (kw_ctx rho kw x).
+Proof. unfold conv_kw, kw_ctx, kw_origin. destruct (kw_rest kw) as [[[s a] k]|]; split; try reflexivity; discriminate. Qed.
 
 (* every string literal of str(query) is quoted by the single quote: all ten classes agree on it (regenerated table) *)
 Lemma cls_sq_all c : cls_sq c = Some "'".
 Proof. destruct c; reflexivity. Qed.
+(* the sub-query alias quote of every class, when it falls back to quote_char, is quote_char (regenerated tables) *)
+Lemma qaq_q_all c : or_ostr (qalias_quote c) (cls_q c) = cls_q c.
+Proof. destruct c; reflexivity. Qed.
 
 Theorem str_toks_exact rho n x ts : str_toks rho n x = Ok ts -> Forall (exact_tok (conv_x rho x)) ts.
-Proof. intros H. eapply (proj2 (toks_exact rho (conv_x rho x) n (img_ok rho))); [apply top_ok|exact H]. Qed.
+Proof. intros H. eapply (proj2 (toks_exact rho (conv_x rho x) n)); [apply top_kok|apply top_ok|exact H]. Qed.
 
 Theorem kw_toks_exact rho n kw x ts : kw_toks rho n kw x = Ok ts -> Forall (exact_tok (conv_kw rho kw x)) ts.
-Proof. intros H. eapply (proj2 (toks_exact rho (conv_kw rho kw x) n (img_ok rho))); [apply kw_ok|exact H]. Qed.
+Proof. intros H. eapply (proj2 (toks_exact rho (conv_kw rho kw x) n)); [apply kw_kok|apply kw_ok|exact H]. Qed.
+
+(* ---------- the per-token claim ---------- *)
+(* what holds of every token of str(query): the outer class's convention for its role, with the two documented
+   class-independent exceptions spelled out: WITH names are bare, a table alias used as a qualifier takes quote_char *)
+Definition strict_or_residue (c : cls) (t : dtok) : Prop :=
+  match snd t with
+  | AId RCte qu _ _ => qu = None
+  | AId RQual qu _ _ => qu = cls_q c
+  | _ => strict_tok (conv_cls c) (qalias_quote c) t
+  end.
+
+Lemma exact_top_strict rho x t :
+  exact_tok (conv_x rho x) t -> strict_or_residue (top_cls_r rho x) t.
+Proof.
+  rewrite conv_x_cls. set (c := top_cls_r rho x). intros [He Ha].
+  unfold strict_or_residue, strict_tok, exact_q, adm_tok, og_adm in *. cbn [conv_cls v_q v_sq v_aq v_as v_qa v_abs] in *.
+  destruct (snd t) as [s|r qu nm og|qu raw og|kw og|b sl|s]; try exact I.
+  - destruct og as [|o]; [|discriminate Ha]. destruct r; cbn [og_aq og_qa conv_cls v_aq v_qa] in He; try exact He.
+    rewrite He. symmetry. apply qaq_q_all.
+  - destruct og as [|o]; [|discriminate Ha]. exact He.
+  - destruct og as [|o]; [|discriminate Ha]. exact He.
+Qed.
+
+Theorem str_toks_strict rho n x ts :
+  str_toks rho n x = Ok ts -> Forall (strict_or_residue (top_cls_r rho x)) ts.
+Proof. intros H. apply str_toks_exact in H. eapply Forall_impl; [|exact H]. intros t. apply exact_top_strict. Qed.
+
+(* ... hence every token that is not a WITH name / qualifier is strict, *)
+Theorem str_toks_strict_nonresidue rho n x ts :
+  str_toks rho n x = Ok ts ->
+  Forall (fun t => residue_tok t = true \/ strict_tok (conv_cls (top_cls_r rho x)) (qalias_quote (top_cls_r rho x)) t) ts.
+Proof.
+  intros H. apply str_toks_strict in H. eapply Forall_impl; [|exact H]. intros t Ht.
+  unfold strict_or_residue in Ht. unfold residue_tok.
+  destruct (snd t) as [s|r qu nm og|qu raw og|kw og|b sl|s]; try (right; exact Ht).
+  destruct r; try (right; exact Ht); left; reflexivity.
+Qed.
+
+(* ... and for a class whose conventions make the residue coincide, every token is strict:
+   [cte_ok]: quote_char is empty (WITH names bare = identifiers bare); [qual_ok]: alias quote = quote_char *)
+Definition cte_ok (c : cls) : bool := ostr_eqb (cls_q c) None.
+Definition qual_ok (c : cls) : bool := ostr_eqb (or_ostr (cls_aq c) (cls_q c)) (cls_q c).
+Definition no_cte_tok (t : dtok) : bool := match snd t with AId RCte _ _ _ => false | _ => true end.
+Definition no_qual_tok (t : dtok) : bool := match snd t with AId RQual _ _ _ => false | _ => true end.
+
+Theorem str_toks_all_strict rho n x ts :
+  let c := top_cls_r rho x in
+  str_toks rho n x = Ok ts ->
+  (cte_ok c = true \/ forallb no_cte_tok ts = true) -> (qual_ok c = true \/ forallb no_qual_tok ts = true) ->
+  Forall (strict_tok (conv_cls c) (qalias_quote c)) ts.
+Proof.
+  intros c H Hc Hq. apply str_toks_strict in H. fold c in H. rewrite Forall_forall in *. intros t Ht. specialize (H t Ht).
+  unfold strict_or_residue in H. unfold strict_tok. cbn [conv_cls v_q v_aq].
+  destruct (snd t) as [s|r qu nm og|qu raw og|kw og|b sl|s] eqn:E; try exact I;
+    try (unfold strict_tok in H; rewrite E in H; exact H).
+  destruct r; try (unfold strict_tok in H; rewrite E in H; exact H).
+  - (* RQual *) destruct Hq as [Hq|Hq].
+    + apply ostr_eqb_eq in Hq. rewrite H. symmetry. exact Hq.
+    + rewrite forallb_forall in Hq. specialize (Hq t Ht). unfold no_qual_tok in Hq. rewrite E in Hq. discriminate Hq.
+  - (* RCte *) destruct Hc as [Hc|Hc].
+    + apply ostr_eqb_eq in Hc. rewrite H. symmetry. exact Hc.
+    + rewrite forallb_forall in Hc. specialize (Hc t Ht). unfold no_cte_tok in Hc. rewrite E in Hc. discriminate Hc.
+Qed.
 
 (* identifiers and string literals: the outer class's quotes at every depth, whatever classes built the sub-queries *)
 Definition ident_lit_tok (c : cls) (t : dtok) : Prop :=
@@ -80,28 +143,26 @@ Definition ident_lit_tok (c : cls) (t : dtok) : Prop :=
   | AStr qu _ _ => qu = cls_sq c
   | _ => True
   end.
-Lemma conv_x_q rho x : v_q (conv_x rho x) = cls_q (top_cls_r rho x).
-Proof. destruct x; reflexivity. Qed.
-Lemma conv_x_sq rho x og : og_sq (conv_x rho x) og = Some "'".
-Proof. destruct og as [|[ci|]]; [|apply cls_sq_all|reflexivity]. destruct x; cbn; try apply cls_sq_all; reflexivity. Qed.
-
 Theorem str_toks_ident_lit rho n x ts :
   str_toks rho n x = Ok ts -> Forall (ident_lit_tok (top_cls_r rho x)) ts.
 Proof.
-  intros H. apply str_toks_exact in H. eapply Forall_impl; [|exact H]. intros t [Ht _].
-  unfold exact_q in Ht. unfold ident_lit_tok. destruct (snd t) as [s|r qu nm og|qu raw og|kw og|b sl|s]; try exact I.
-  - destruct r; try exact I. rewrite Ht. apply conv_x_q.
-  - rewrite Ht, conv_x_sq, cls_sq_all. reflexivity.
+  intros H. apply str_toks_strict in H. eapply Forall_impl; [|exact H]. intros t Ht.
+  unfold strict_or_residue, strict_tok, ident_lit_tok in *. destruct (snd t) as [s|r qu nm og|qu raw og|kw og|b sl|s]; try exact I.
+  - destruct r; try exact I. exact Ht.
+  - exact Ht.
 Qed.
 
-(* on the fragment where no alias / AS token originates from a foreign convention: the full per-token claim *)
+(* explicit kwargs, all of them given: the same claim with respect to the kwargs *)
 Theorem str_toks_strict_on_fragment rho n x ts qa :
   str_toks rho n x = Ok ts -> forallb (benign_tok (conv_x rho x) qa) ts = true -> Forall (strict_tok (conv_x rho x) qa) ts.
 Proof. intros H Hb. apply exact_benign_strict_all; [eapply str_toks_exact; exact H|exact Hb]. Qed.
+Theorem kw_toks_strict_on_fragment rho n kw x ts qa :
+  kw_toks rho n kw x = Ok ts -> forallb (benign_tok (conv_kw rho kw x) qa) ts = true -> Forall (strict_tok (conv_kw rho kw x) qa) ts.
+Proof. intros H Hb. apply exact_benign_strict_all; [eapply kw_toks_exact; exact H|exact Hb]. Qed.
 
 (* the devendored, quote-erased token sequence is the same for every labelling of the (sub-)statements *)
 Lemma csim_top rho rho' x : csim (kc (top_k rho x)) (kc (top_k rho' x)).
-Proof. destruct x; repeat split. Qed.
+Proof. repeat split. Qed.
 Theorem str_toks_same rho rho' n x ts ts' :
   str_toks rho n x = Ok ts -> str_toks rho' n x = Ok ts' -> erase ts = erase ts'.
 Proof.
@@ -119,65 +180,6 @@ Theorem kw_str_toks_same rho rho' n kw x ts ts' :
   kw_toks rho n kw x = Ok ts -> str_toks rho' n x = Ok ts' -> erase ts = erase ts'.
 Proof.
   intros H H'. eapply (proj2 (toks_agree rho rho' n)); [| |exact H|exact H'].
-  - unfold kw_ctx. destruct (kw_rest kw) as [[[s a] k]|], x; repeat split.
+  - unfold kw_ctx. destruct (kw_rest kw) as [[[s a] k]|]; repeat split.
   - intros _. reflexivity.
-Qed.
-
-(* ---------- class-level fragment: compatible classes ---------- *)
-(* [transparent c]: the fall-backs that apply below a function call (no alias quote, no AS) coincide with c's own
-   convention; [compat c ci]: class ci's alias quote, AS keyword and query-alias quote coincide with c's (given c's quote_char) *)
-Definition transparent (c : cls) : bool :=
-  ostr_eqb (or_ostr (cls_aq c) (cls_q c)) (cls_q c) && negb (cls_askw c) && ostr_eqb (or_ostr (qalias_quote c) (cls_q c)) (cls_q c).
-Definition compat (c ci : cls) : bool :=
-  ostr_eqb (or_ostr (cls_aq ci) (cls_q c)) (or_ostr (cls_aq c) (cls_q c))
-  && Bool.eqb (cls_askw ci) (cls_askw c)
-  && ostr_eqb (or_ostr (qalias_quote ci) (cls_q c)) (or_ostr (qalias_quote c) (cls_q c)).
-(* the per-token claim minus the two class-independent deviations (WITH names, comparison aliases) *)
-Definition strict_core (v : conv) (qa : option string) (t : dtok) : Prop :=
-  match snd t with
-  | AId RCte _ _ _ | AId RAliasC _ _ _ => True
-  | _ => strict_tok v qa t
-  end.
-
-Lemma or_ostr_none b : or_ostr None b = b.
-Proof. reflexivity. Qed.
-
-Theorem str_toks_compatible rho n x ts :
-  let c := top_cls_r rho x in
-  transparent c = true -> (forall c0, compat c (rho c0) = true) ->
-  str_toks rho n x = Ok ts -> Forall (strict_core (conv_cls c) (qalias_quote c)) ts.
-Proof.
-  intros c Ht Hc H. apply str_toks_exact in H. eapply Forall_impl; [|exact H]. clear H.
-  unfold transparent in Ht. apply andb_prop in Ht. destruct Ht as [Ht Tq]. apply andb_prop in Ht. destruct Ht as [Ta Tk].
-  apply ostr_eqb_eq in Ta. apply ostr_eqb_eq in Tq. apply negb_true_iff in Tk.
-  assert (Hcc : forall ci, img rho ci = true ->
-            or_ostr (cls_aq ci) (cls_q c) = cls_q c /\ cls_askw ci = false /\ or_ostr (qalias_quote ci) (cls_q c) = cls_q c).
-  { intros ci Hi. apply img_inv in Hi. destruct Hi as [c0 <-]. specialize (Hc c0). unfold compat in Hc.
-    apply andb_prop in Hc. destruct Hc as [Hc C3]. apply andb_prop in Hc. destruct Hc as [C1 C2].
-    apply ostr_eqb_eq in C1. apply ostr_eqb_eq in C3. apply (proj1 (bool_eqb_eq _ _)) in C2. fold c in C1, C2, C3.
-    repeat split; congruence. }
-  assert (Vq : v_q (conv_x rho x) = cls_q c) by apply conv_x_q.
-  assert (Vaq : forall og, og_adm (conv_x rho x) og = true -> or_ostr (og_aq (conv_x rho x) og) (cls_q c) = cls_q c).
-  { intros [|[ci|]] Ho; cbn [og_aq].
-    - destruct x; cbn; try exact Ta; reflexivity.
-    - apply (Hcc ci Ho).
-    - reflexivity. }
-  assert (Vas : forall og, og_adm (conv_x rho x) og = true -> og_as (conv_x rho x) og = false).
-  { intros [|[ci|]] Ho; cbn [og_as].
-    - destruct x; cbn; try exact Tk; reflexivity.
-    - apply (Hcc ci Ho).
-    - reflexivity. }
-  intros t [He Ha]. unfold strict_core, strict_tok, exact_q, adm_tok in *. cbn [conv_cls v_q v_aq v_as v_sq].
-  destruct (snd t) as [s|r qu nm og|qu raw og|kw og|b sl|s]; try exact I.
-  - destruct r; try exact I.
-    + (* RIdent *) congruence.
-    + (* RAlias *) rewrite He, Vq, Vaq by exact Ha. symmetry. exact Ta.
-    + (* RAliasQ *) rewrite He, Vq. symmetry. exact Ta.
-    + (* RQual *) rewrite He, Vq. symmetry. exact Ta.
-    + (* RQAlias *) destruct Ha as [Ha [Hi|Hi]]; rewrite He, Vq, Tq.
-      * apply (Hcc inner Hi).
-      * subst inner. reflexivity.
-    + (* RSAlias *) rewrite He, Vq, Vaq, Tq by exact Ha. reflexivity.
-  - (* AStr *) rewrite He, conv_x_sq, cls_sq_all. reflexivity.
-  - (* AAs *) rewrite He, Vas by exact Ha. symmetry. exact Tk.
 Qed.
